@@ -36,10 +36,10 @@ pub fn thorough(tier: &str) -> bool {
     tier == "thorough"
 }
 
-fn lim(bid: bool, price: u32, vol: u32) -> Step {
+pub fn lim(bid: bool, price: u32, vol: u32) -> Step {
     Step { dt: 1, op: Op::Limit { bid, price, vol } }
 }
-fn mkt(bid: bool, vol: u32) -> Step {
+pub fn mkt(bid: bool, vol: u32) -> Step {
     Step { dt: 1, op: Op::Market { bid, vol } }
 }
 fn st(op: Op) -> Step {
@@ -315,6 +315,15 @@ pub fn c01(tier: &str) -> i32 {
     with_bases(&mut plans, "core tick 1", &core1, 3, if t { 5 } else { 3 });
     with_bases(&mut plans, "core + modify", &rp, 3, if t { 4 } else { 2 });
     with_big_bases(&mut plans, "core + modify", &rp, 3, if t { 3 } else { 2 });
+    // the highest valid grid prices for tick sizes that do not divide 2^32-1
+    for tick in [2u32, 10] {
+        let top = (u32::MAX - 1) / tick;
+        let mut tb = Profile::core(&format!("top-of-grid-tick{}", tick), tick, top - 2);
+        tb.modify = true;
+        tb.modify_prices = true;
+        tb.modify_vols = vec![];
+        plans.push(plan(&format!("tick {}: the three highest grid prices", tick), tb, 3, if t { 5 } else { 4 }));
+    }
     // large magnitudes: times beyond 2^32, prices beyond 2^31, volumes beyond 2^16 and 2^31
     let mut mg = Profile::magnitude("magnitudes");
     mg.modify = true;
@@ -464,6 +473,13 @@ pub fn c03(tier: &str) -> i32 {
     mg.modify_vols = vec![70_001];
     mg.toggles = true;
     plans.push(plan("large times, prices and volumes", mg, 3, if t { 5 } else { 4 }));
+    // several counter windows of 3e9 each: the volume traded over the life of the book passes
+    // 2^32 while every window between two resets stays below it (one price, one volume: deep)
+    let mut dw = Profile::magnitude("ledger-counter-windows");
+    dw.prices = vec![2_147_483_647];
+    dw.limit_vols = vec![3_000_000_000];
+    dw.market_vols = vec![];
+    plans.push(plan("counter windows of 3e9 each, lifetime volume beyond 2^32", dw, 3, if t { 8 } else { 6 }));
     execute(
         &mut out,
         plans,
@@ -621,6 +637,20 @@ pub fn c12(tier: &str) -> i32 {
             if t { 4 } else { 3 },
         ));
     }
+    // the two ends of the price axis are grid prices too (0 always, 2^32-1 when the tick divides it)
+    for tick in [1u32, 5] {
+        let mut p = Profile::core(&format!("grid-extremes-tick{}", tick), tick, 2);
+        p.prices = vec![0, tick, u32::MAX - tick, u32::MAX];
+        p.limit_vols = vec![2];
+        p.market_vols = vec![1];
+        p.modify = true;
+        p.modify_prices = true;
+        p.modify_vols = vec![];
+        if tick > 1 {
+            p.offgrid_prices = vec![1, u32::MAX - 1];
+        }
+        plans.push(plan(&format!("tick {}: limit prices 0 and 2^32-1 (on the grid)", tick), p, 4, if t { 4 } else { 3 }));
+    }
     let mut p = Profile::core("grid-tick2-events", 2, 2);
     p.modify = true;
     p.modify_prices = true;
@@ -654,6 +684,21 @@ pub fn c13(tier: &str) -> i32 {
     pc.toggles = true;
     plans.push(plan("core + toggles", pc, 3, if t { 6 } else { 5 }));
     with_bases(&mut plans, "toggles", &p, 3, if t { 4 } else { 2 });
+    for tick in [2u32, 10] {
+        let top = (u32::MAX - 1) / tick;
+        let mut tb = Profile::core(&format!("toggles-top-of-grid-tick{}", tick), tick, top - 2);
+        tb.prices = vec![(top - 1) * tick, top * tick];
+        tb.toggles = true;
+        tb.start_trading = tick == 2;
+        tb.limit_vols = vec![2];
+        tb.market_vols = vec![3];
+        plans.push(plan(&format!("tick {}: toggles at the two highest grid prices", tick), tb, 3, if t { 5 } else { 4 }));
+    }
+    let mut mg = Profile::magnitude("toggles-magnitudes");
+    mg.toggles = true;
+    mg.prices = vec![2_147_483_647, 2_147_483_648];
+    mg.limit_vols = vec![1, 3_000_000_000];
+    plans.push(plan("large times, prices and volumes", mg, 3, if t { 5 } else { 4 }));
     execute(
         &mut out,
         plans,
@@ -722,6 +767,22 @@ pub fn c05_book(out: &mut Outcome, t: bool) {
     xm.modify_vols = vec![1];
     xm.limit_vols = vec![2];
     plans.push(plan("trading off at start, toggles, modify, clock {0,+1}", xm, 3, if t { 5 } else { 4 }));
+    // ties at prices that are complementary under the bid-key inversion (p + q = 2^32-1), and
+    // ties between bids above 2^31
+    for (name, prices) in [("ties-complementary-prices", vec![2_147_483_647u32, 2_147_483_648]), ("ties-high-bid-prices", vec![2_147_483_648u32, 3_000_000_000])] {
+        let mut hp = core.clone();
+        hp.name = name.into();
+        hp.prices = prices;
+        hp.limit_vols = vec![1];
+        hp.market_vols = vec![];
+        hp.start_time = 1 << 40;
+        plans.push(plan(&format!("{}: limit orders and cancels only, clock {{0,+1}}", name), hp.clone(), 3, if t { 7 } else { 6 }));
+        hp.name = format!("{}-modify", name);
+        hp.modify = true;
+        hp.modify_prices = true;
+        hp.modify_vols = vec![];
+        plans.push(plan(&format!("{}: + re-pricing modifies", name), hp, 3, if t { 5 } else { 4 }));
+    }
     execute(
         out,
         plans,
